@@ -7,6 +7,9 @@
 #include <limits>
 extern "C" double nondet_double() noexcept;
 extern "C" void __CPROVER_assume(int) noexcept;
+#ifdef VT_RNG_RECORD
+extern "C" double vt_last_canonical;
+#endif
 namespace std
 {
     template <>
@@ -14,6 +17,9 @@ namespace std
     {
         double r = nondet_double();
         __CPROVER_assume(r >= 0.0 && r < 1.0);
+#ifdef VT_RNG_RECORD
+        vt_last_canonical = r;                    // lets a harness relate an accept/reject decision to the draw behind it
+#endif
         return r;
     }
     template <>
